@@ -96,10 +96,16 @@ def handleE (line : String) : Except String String := do
   let p0 ← parseProgram (← field j "p0")
   let steps ← arrF j "steps"
   let ws0 := C12.Model.wellSizedProgram p0 spReg.size
-  -- structural hypotheses of the run-level theorems of expression propagation (RunPropagation.lean)
+  -- structural hypotheses of the run-level theorems on the input program: `subCfgOk` (expression propagation,
+  -- RunPropagation.lean) and those of the composition theorem (`OptimizeHyp` of Props.lean: `CfOk`, `dveShapeOk`;
+  -- `NonTempPhys` connects the executable hypothesis check `hypSub` to H2 of the theorems)
   let cfg0 := p0.subs.all (subCfgOk p0)
+  let opt0 := cfOkB p0 && p0.subs.all (fun s => dveShapeOk s.term.blocks)
+  let ntp0 := p0.subs.all (fun s => nonTempPhysB physRegs s.term.blocks)
   let mut acc : Acc := { tags := [if ws0 then "wellsized-input" else "illsized-input",
-    if cfg0 then "cfg-hyp-ok" else "cfg-hyp-outside"] }
+    if cfg0 then "cfg-hyp-ok" else "cfg-hyp-outside",
+    if opt0 then "optimize-hyp-ok" else "optimize-hyp-outside",
+    if ntp0 then "nontemp-phys-ok" else "nontemp-phys-outside"] }
   let mut cur := p0
   for st in steps do
     let pass ← strF st "pass"
